@@ -28,6 +28,14 @@ static const char* FIXED_RULES =
     "rule last_byte { condition: uint8(filesize - 1) == 0x63 }\n"
     "rule rd32 { condition: uint32(4094) != 0 or uint16be(4095) == 0x6162 }\n";
 
+static std::string filler_rules()
+{
+  std::string r;
+  for (int i = 0; i < 70; i++)
+    r += strf("rule fill_%02d { condition: filesize %% 5 == %d or uint8(%d) == 0x61 }\n", i, i % 5, i % 4);
+  return r;
+}
+
 static std::string strip_lines(const std::string& t, char kind)
 {
   std::istringstream is(t);
@@ -78,7 +86,7 @@ std::string run_case(Src& s, CaseInfo& ci)
   std::vector<int> all;
   for (size_t i = 0; i < gs.rules.size(); i++) all.push_back((int) i);
   std::vector<SourceUnit> units = units_for(gs, all);
-  units.insert(units.begin(), SourceUnit{"default", FIXED_RULES, YS_ADD_STRING});
+  units.insert(units.begin(), SourceUnit{"default", std::string(FIXED_RULES) + filler_rules(), YS_ADD_STRING});
 
   // the buffer
   bytes B;
@@ -180,6 +188,9 @@ std::string run_case(Src& s, CaseInfo& ci)
   if (!sc)
     return "scanner creation failed";
   std::string failure;
+  // the scanner object has already been used for other data, as a long-lived
+  // scanner normally is
+  do_scan(R.r, sc, "aaaa" + g_samples.macho.substr(0, 777), YS_SCAN_MEM, {}, 0);
   for (int entry = 0; entry < 4 && failure.empty(); entry++)
     for (int lvl = 0; lvl < 2 && failure.empty(); lvl++)
     {
